@@ -112,6 +112,7 @@ type verifC04Server struct {
 	roots   []string
 	uuids   []string
 	lockers []*verifC04Locker
+	full    []bool
 }
 
 var verifC04BufsSet bool
@@ -135,7 +136,7 @@ func verifC04NewServer(base string, vols []string) (*verifC04Server, error) {
 	cluster.Volumes = map[string]arvados.Volume{}
 	s := &verifC04Server{cluster: cluster}
 	for i, v := range vols {
-		if len(v) != 2 || (v[0] != 'w' && v[0] != 'r' && v[0] != 'a') || (v[1] != 's' && v[1] != 'n') {
+		if (len(v) != 2 && !(len(v) == 3 && v[2] == 'f')) || (v[0] != 'w' && v[0] != 'r' && v[0] != 'a') || (v[1] != 's' && v[1] != 'n') {
 			return nil, fmt.Errorf("hist: bad volume spec %q", v)
 		}
 		root := filepath.Join(base, fmt.Sprintf("v%d", i))
@@ -151,6 +152,7 @@ func verifC04NewServer(base string, vols []string) (*verifC04Server, error) {
 		}
 		cluster.Volumes[verifC04UUID(i)] = vol
 		s.roots = append(s.roots, root)
+		s.full = append(s.full, len(v) == 3)
 		s.uuids = append(s.uuids, verifC04UUID(i))
 	}
 	reg := prometheus.NewRegistry()
@@ -226,6 +228,15 @@ func (s *verifC04Server) wipe() error {
 		}
 	}
 	s.volmgr.counter = 0
+	// volumes flagged 'f': the marker IsFull() looks for (a symlink <root>/full -> <unix time>, younger
+	// than an hour), so that WriteBlock answers FullError
+	for i, r := range s.roots {
+		if s.full[i] {
+			if err := os.Symlink(strconv.FormatInt(time.Now().Unix(), 10), filepath.Join(r, "full")); err != nil {
+				return err
+			}
+		}
+	}
 	return nil
 }
 
@@ -279,7 +290,7 @@ func (s *verifC04Server) listing(now time.Time) string {
 	for _, root := range s.roots {
 		var ents []string
 		filepath.Walk(root, func(path string, info os.FileInfo, err error) error {
-			if err != nil || info.IsDir() {
+			if err != nil || info.IsDir() || (info.Name() == "full" && filepath.Dir(path) == root) {
 				return nil
 			}
 			name := info.Name()
@@ -324,7 +335,7 @@ func (s *verifC04Server) age(d int) error {
 	for _, root := range s.roots {
 		var files []string
 		filepath.Walk(root, func(path string, info os.FileInfo, err error) error {
-			if err == nil && !info.IsDir() {
+			if err == nil && !info.IsDir() && !(info.Name() == "full" && filepath.Dir(path) == root) {
 				files = append(files, path)
 			}
 			return nil
